@@ -77,8 +77,9 @@ Definition ins_precheck (s : store) (name : string) (cols : list string) (vals :
   do sch <- rel_schema s name;
   let cols' := match cols with [] => map fd_name sch | _ => cols end in
   if negb (Nat.eqb (length cols') (length vals)) then Err EColCount else
+  match cols_err (map fd_name sch) cols' [] with Some e => Err e | None =>
   do bs <- encode_tuple sch (zip_set cols' vals []);
-  Ok (off, bs).
+  Ok (off, bs) end.
 
 Lemma st_insert_unfold s name cols vals :
   st_insert s name cols vals =
@@ -100,7 +101,15 @@ Lemma st_insert_unfold s name cols vals :
   | Err e => (s, Err e)
   | Panic => (s, Panic)
   end.
-Proof. reflexivity. Qed.
+Proof.
+  unfold st_insert, ins_bad_cols, st_insert0, ins_precheck.
+  destruct (is_sys_table name); [reflexivity|].
+  destruct (rel_offset s name) as [o|e|]; cbn [bind]; try reflexivity.
+  destruct (get_tree s o) as [t|e|]; cbn [bind]; try reflexivity.
+  destruct (rel_schema s name) as [sch|e|]; cbn [bind]; try reflexivity.
+  destruct (negb _); [reflexivity|].
+  destruct (cols_err _ _ _); reflexivity.
+Qed.
 
 Lemma ins_precheck_tree s name cols vals off bs :
   ins_precheck s name cols vals = Ok (off, bs) -> exists t, get_tree s off = Ok t.
@@ -109,6 +118,7 @@ Proof.
   destruct (get_tree s o) as [t|e|] eqn:Et; cbn [bind]; try discriminate.
   destruct (rel_schema s name) as [sch|e|]; cbn [bind]; try discriminate.
   destruct (negb _); try discriminate.
+  destruct (cols_err _ _ _); try discriminate.
   destruct (encode_tuple _ _) as [b|e|]; cbn [bind]; try discriminate.
   intros H. inversion H; subst. eauto.
 Qed.
@@ -132,7 +142,8 @@ Qed.
 Lemma st_update_err s name k cols vals e :
   snd (st_update s name k cols vals) = Err e -> fst (st_update s name k cols vals) = s.
 Proof.
-  unfold st_update. destruct (is_sys_table name); [reflexivity|]. repeat (break_match; cbn [fst snd]; try reflexivity); discriminate.
+  unfold st_update. destruct (upd_bad_cols s name cols); [reflexivity|].
+  unfold st_update0. destruct (is_sys_table name); [reflexivity|]. repeat (break_match; cbn [fst snd]; try reflexivity); discriminate.
 Qed.
 
 Lemma st_delete_err s name k e :
@@ -302,7 +313,7 @@ Proof.
       pose proof (st_update_err s n k (map fst sets) (lit_vals sets)) as Hs.
       assert (Hx : exists e2, snd (st_update s n k (map fst sets) (lit_vals sets)) = Err e2).
       { destruct Hfe as [Hsys|Hfe].
-        - unfold st_update. rewrite Hsys. cbn [snd]. eauto.
+        - unfold st_update, upd_bad_cols, st_update0. rewrite Hsys. cbn [snd]. eauto.
         - destruct (snd (st_update s n k (map fst sets) (lit_vals sets))); try discriminate. eauto. }
       destruct Hx as [e2 He2]. specialize (Hs e2 He2).
       destruct (st_update s n k (map fst sets) (lit_vals sets)) as [s1 r1];
